@@ -53,8 +53,21 @@ func gen(seed int64, tier string, idx int) *pipe.Scenario {
 			first = "stopall"
 			sc.Name = "during-graceful-shutdown"
 		}
+		after := g.R.Intn(3000)
+		if first == "stopall" {
+			// the shutdown cannot finish because a destination does not answer; the
+			// escalation follows while it is still draining
+			d := sc.Topo.Dests[g.R.Intn(len(sc.Topo.Dests))].ID
+			steps = append(steps, pipe.Step{AtEvent: 20 + g.R.Intn(60), Op: "block:" + d},
+				pipe.Step{AtEvent: 0, Op: "quiet"},
+				pipe.Step{AtEvent: 0, Op: "bg:stopall"},
+				pipe.Step{AtEvent: 0, Op: "forcestop", AfterPrevUs: 1000 + g.R.Intn(20000)},
+				pipe.Step{AtEvent: 0, Op: "wait"},
+				pipe.Step{AtEvent: 0, Op: "unblock:" + d})
+			break
+		}
 		steps = append(steps, pipe.Step{AtEvent: 25 + g.R.Intn(150), Op: first},
-			pipe.Step{AtEvent: 0, Op: "forcestop", AfterPrevUs: g.R.Intn(3000)})
+			pipe.Step{AtEvent: 0, Op: "forcestop", AfterPrevUs: after})
 	case "idle":
 		steps = append(steps, pipe.Step{AtEvent: -1, Op: "forcestop"})
 	case "during-backoff":
@@ -69,7 +82,7 @@ func gen(seed int64, tier string, idx int) *pipe.Scenario {
 		steps = append(steps, pipe.Step{AtEvent: 0, Op: "await-recovering"},
 			pipe.Step{AtEvent: 0, Op: "forcestop", AfterPrevUs: g.R.Intn(30000)})
 	}
-	if instant != "dst-blocked" && instant != "dlq-blocked" {
+	if instant != "dst-blocked" && instant != "dlq-blocked" && sc.Name != "during-graceful-shutdown" {
 		steps = append(steps, pipe.Step{AtEvent: 0, Op: "wait"})
 	}
 	// the pipeline can afterwards be started again and resumes without a gap
